@@ -485,6 +485,7 @@ struct CopyMatrix : Family {
 				otherSrc.resize(S.size() / 2 + 7);
 				for (size_t q = 0; q < otherSrc.size(); ++q) otherSrc[q] = static_cast<uint8_t>((S.empty() ? 0x5a : ~S[q % S.size()]) + q);
 				sr->interleaveAtCall = 1 + mix64(plan.seed, i) % 3;
+				sr->interleaveBefore = (mix64(plan.seed, i + 17) % 3) == 0;
 				sr->interleave = [&, chunk] {
 					Stream::MemoryReader r2(otherSrc.data(), otherSrc.size());
 					Stream::DynamicMemoryWriter w2;
